@@ -387,7 +387,7 @@ func C12() *engine.Check {
 			Gen:     gen(2),
 			NewCase: func() any { return &c12Case{} },
 			Run:     run,
-		}, c12LargeSub(), selCollideSub("C12"), c12ConcSub(), concRaceSub("C12")},
+		}, c12LargeSub(), c12WrapSub(), selCollideSub("C12"), c12ConcSub(), concRaceSub("C12")},
 		Assumptions: []string{
 			"don't-care: optional slice/iterator segments that cannot apply; any segment after them; order of a map's values under the iterator (compared as a multiset, and an index/slice on such a list is not compared)",
 			"applying a non-optional segment to 'no value' is an error, an optional field/index to 'no value' is 'no value' (a failing segment in the sense of the property)",
